@@ -71,6 +71,13 @@ def worker_main(argv):
     pid, tier, seed, shard, nshards, out = argv[0], argv[1], int(argv[2]), int(argv[3]), int(argv[4]), argv[5]
     mod = load_prop(pid)
     plan = mod.plan(tier)
+    try:
+        # a runaway loop in the code under test may allocate without bound until the case guard fires
+        import resource
+
+        resource.setrlimit(resource.RLIMIT_AS, (12 << 30, 12 << 30))
+    except Exception:
+        pass
     if hasattr(mod, "setup"):
         mod.setup(tier)
     res = {
